@@ -5,6 +5,7 @@ pub struct IoError { pub kind: u8 }
 #[verifier::external_body]
 pub struct ProgressDrawTarget { _p: core::marker::PhantomData<()> }
 impl ProgressDrawTarget {
+    uninterp spec fn wf2(&self) -> bool;     // the target's type invariant (defined in the bar_draw unit)
     #[verifier::external_body]
     pub fn mark_zombie(&mut self) { unimplemented!() }
 }
